@@ -30,8 +30,13 @@ def tlc_generate(module, cfg, name, workers=8, timeout=1500):
     if r["rc"] != 0 or "No error has been found" not in r["tail"]:
         raise ToolError("generator %s/%s failed (rc=%s):\n%s" % (module, cfg, r["rc"], r["tail"][-3000:]))
     cases = list(vlib.tlc_lines(r["out"], "CASE"))
+    design = list(vlib.tlc_lines(r["out"], "DESIGN"))
     os.remove(r["out"])
-    return cases, {"module": module, "cfg": cfg, "states": r["states"], "distinct": r["distinct"], "wall": round(r["wall"], 1), "cases": len(cases)}
+    st = {"module": module, "cfg": cfg, "states": r["states"], "distinct": r["distinct"], "wall": round(r["wall"], 1), "cases": len(cases)}
+    if design:
+        st["design_counterexamples"] = len(design)
+        st["design_samples"] = design[:3]
+    return cases, st
 
 
 def src_exprparens(tier, seed):
